@@ -5,8 +5,9 @@ from .opcommon import h, base_desc
 
 ID = 'C08'
 LEVEL = 'exploration'
-RULE = ('relational monitor on the result columns of the real operators for the same (base, queries): small '
-        'generated bases (strict and extended mode), the shipped random_large corpus (6-40 atoms quick, 6-80 thorough; z3 back-ends up to 40) and other '
+RULE = ('relational monitor on the result columns of the real operators for the same (base, queries): the '
+        'hand-built witness corpus (vf/witness.py), small generated bases incl. shaped families with tie-forcing '
+        'queries (strict and extended mode), the shipped random_large corpus (6-40 atoms quick, 6-80 thorough; z3 back-ends up to 40) and other '
         'shipped corpora with base-derived queries, and disjoint unions of generated bases (10-40 atoms). A row '
         'with p&!Z, Z&!W, W&!lex (per back-end, both modes), p&!c or c&!W (strict) is a violation. '
         'Non-trivial = row whose chain of answers is not constant (some operator True, some False); distinct by '
@@ -35,7 +36,12 @@ def cases(tier, seed):
     # large cases first (so that they do not form the tail of the run), but only a bounded number of them:
     # the rest keep their place, otherwise a time budget would be spent on corpus bases alone
     big = [c for c in out if c['kind'] in ('corpus', 'other', 'union')]
-    head = big[:160]
+    # ... preceded by a block of the (cheap) small cases, where the shaped families live
+    from .. import witness
+    wit = [{'prop': ID, 'seed': seed, 'idx': 10 ** 6 + i, 'kind': 'witness', 'witness': i, 'tier': tier}
+           for i in range(len(witness.WITNESSES))]
+    head = (wit + [c for c in out if c['kind'] == 'small-strict'][:80] + [c for c in out if c['kind'] == 'small-ext'][:30]
+            + big[:160])
     hs = {id(c) for c in head}
     return head + [c for c in out if id(c) not in hs]
 
@@ -54,9 +60,28 @@ def run_case(case):
             d[sub] = d.get(sub, 0) + n
     modes = [False]
     src = kind
-    if kind == 'small-strict':
-        sig, conds, _ = gen.gen_base(rng, 'strong', family=rng.choice([None, None, 'multiex', 'conjcons', 'indep']))
-        qs = gen.gen_queries(rng, sig, conds, 10, p_tie=0.35)
+    if kind == 'witness':
+        # the hand-built corpus of delicate inputs (vf/witness.py) with its own and generated tie-forcing queries
+        from .. import witness
+        from parser.Wrappers import parse_belief_base, parse_queries
+        name, sigt, rules, qtexts, extended_only = witness.WITNESSES[case['witness']]
+        bb0 = parse_belief_base(witness.text(sigt, rules))
+        sig = list(bb0.signature)
+        conds = [(fml.from_pysmt(c.consequence), fml.from_pysmt(c.antecedence)) for c in bb0.conditionals.values()]
+        qs = [(fml.from_pysmt(c.consequence), fml.from_pysmt(c.antecedence))
+              for c in parse_queries(','.join(qtexts)).conditionals.values()]
+        if len(sig) <= 7:
+            qs += gen.gen_queries(rng, sig, conds, 6, p_tie=0.8, extra_atom_p=0.0)
+        modes = [True] if extended_only else [False, True]
+        src = 'witness:' + name
+        mk = lambda: impl.mk_bb(sig, conds)
+    elif kind == 'small-strict':
+        sig, conds, fam = gen.gen_base(rng, 'strong', family=rng.choices(
+            [None, 'multiex', 'conjcons', 'indep', 'expchain', 'disjant'], [4, 2, 2.5, 1.5, 1, 1])[0])
+        # shapes on which the operators genuinely differ: ties between correction sets (clause cost versus
+        # cardinality), impacts that must grow exponentially along a chain of exceptions
+        qs = gen.gen_queries(rng, sig, conds, 10, p_tie=0.75 if fam in ('conjcons', 'multiex', 'disjant') else 0.35)
+        bump('family', fam)
         mk = lambda: impl.mk_bb(sig, conds)
     elif kind == 'small-ext':
         sig, conds, _ = gen.gen_base(rng, 'weak_or_strong')
